@@ -14,6 +14,9 @@ mod registry;
 mod rx_dangling;
 mod rx_content;
 mod rx_derive;
+mod refparse;
+mod validate;
+mod rx_build;
 
 fn main() {
     let args: Vec<String> = std::env::args().collect();
@@ -36,6 +39,7 @@ fn main() {
         "dangling" => rx_dangling::run(&args[2], &args[3], &opts),
         "content" => rx_content::run(&args[2], &args[3], &opts),
         "derive" => rx_derive::run(&args[2], &args[3], &opts),
+        "build" => rx_build::run(&args[2], &args[3], &opts),
         "cache" => rx_cache::run(&args[2], &args[3], &opts),
         "widths" => rx_font::run_widths(&args[2], &args[3], &opts),
         "cmap" => rx_font::run_cmap(&args[2], &args[3], &opts),
